@@ -26,11 +26,75 @@ type attachClient struct {
 
 func (c *attachClient) PostAssign(e *Engine, st *State, lhs, rhs []ast.Expr, _ ast.Stmt) *State {
 	if len(rhs) == 1 && len(lhs) >= 1 {
-		if call, ok := ast.Unparen(rhs[0]).(*ast.CallExpr); ok && Callee(e.Info, call) == c.chain {
-			st = e.SetTag(st, lhs[0], "fresh:chainSubquery")
+		if call, ok := ast.Unparen(rhs[0]).(*ast.CallExpr); ok {
+			callee := Callee(e.Info, call)
+			if callee == c.chain {
+				st = e.SetTag(st, lhs[0], "fresh:chainSubquery")
+			} else if i := c.freshResult(callee); i >= 0 && i < len(lhs) {
+				// a helper that chains a new subquery and hands it back (appendChained: the list, the new subquery, an error)
+				st = e.SetTag(st, lhs[i], "fresh:chainSubquery")
+			}
 		}
 	}
 	return st
+}
+
+// freshResult: the index of the result through which a helper of the planner hands back the subquery it has just
+// made with chainSubquery (every non-nil value returned there is that subquery); -1 if it is not such a helper.
+func (c *attachClient) freshResult(f *types.Func) int {
+	if f == nil || f == c.chain {
+		return -1
+	}
+	decl, dpkg := c.p.DeclOf(f)
+	if decl == nil || decl.Body == nil || dpkg != c.p.PQL {
+		return -1
+	}
+	info := c.p.PQL.TypesInfo
+	sig := f.Type().(*types.Signature)
+	idx := -1
+	for i := 0; i < sig.Results().Len(); i++ {
+		if TypeStr(sig.Results().At(i).Type()) == "*pql.subquery" {
+			if idx >= 0 {
+				return -1
+			}
+			idx = i
+		}
+	}
+	if idx < 0 {
+		return -1
+	}
+	// the local that receives chainSubquery's result
+	var made types.Object
+	ast.Inspect(decl.Body, func(n ast.Node) bool {
+		if as, ok := n.(*ast.AssignStmt); ok && len(as.Rhs) == 1 && len(as.Lhs) >= 1 {
+			if call, isCall := ast.Unparen(as.Rhs[0]).(*ast.CallExpr); isCall && Callee(info, call) == c.chain {
+				made = objOf(info, as.Lhs[0])
+			}
+		}
+		return true
+	})
+	if made == nil || !c.p.neverReassigned(made) {
+		return -1
+	}
+	ok, rets := true, 0
+	ast.Inspect(decl.Body, func(n ast.Node) bool {
+		ret, isRet := n.(*ast.ReturnStmt)
+		if !isRet || len(ret.Results) != sig.Results().Len() {
+			if isRet {
+				ok = false
+			}
+			return true
+		}
+		rets++
+		if x := ret.Results[idx]; !isNilIdent(info, x) && objOf(info, x) != made {
+			ok = false
+		}
+		return true
+	})
+	if !ok || rets == 0 {
+		return -1
+	}
+	return idx
 }
 
 // LoopHead: "created on this path" means created while handling the current operator.
